@@ -1508,7 +1508,7 @@ class IMAPClientCommand:
                 break
         if section is None:
             raise BadSyntax(
-                value=f"{self.input[:10]}: expected a valid section "
+                value=f"{self.input[:10]!r}: expected a valid section "
                 f"identifier, one of: {str(section_texts)}"
             )
 
@@ -2219,7 +2219,7 @@ class IMAPClientCommand:
                     raise NoMatch(value=syntax_error)
                 else:
                     raise NoMatch(
-                        value=f"No match for simple string '{string}', input started with: '{self.input[:10]}'"
+                        value=f"No match for simple string '{string}', input started with: {self.input[:10]!r}"
                     )
         if swallow:
             self.input = self.input[len(string) :]
